@@ -291,12 +291,12 @@ func writeEvidence(c *Ctx, pr *propResult, dir string, tier string, seed int, st
 		"checker_cmd":         "wirecheck -property " + pr.prop + " -tier " + tier,
 		"trusted_base":        []string{"go/types", "go/packages", "go/ast (x/tools v0.29.0)", "oracle tables and triage table in /verif/checker"},
 		"packages_analysed":   c.FileSet,
-		"renamed_functions_recognised_by_signature": c.Renamed,
+		"renamed_functions_recognised_by_signature":       c.Renamed,
 		"helpers_analysed_as_part_of_their_single_caller": c.linkedNames(),
-		"functions_analysed":  fns,
-		"rules":               res,
-		"known_findings":      pr.known,
-		"violations_found":    pr.violations,
+		"functions_analysed":                              fns,
+		"rules":                                           res,
+		"known_findings":                                  pr.known,
+		"violations_found":                                pr.violations,
 	}
 	for k, v := range pr.extra {
 		ev.Coverage[k] = v
